@@ -55,6 +55,8 @@ type c01Fault struct {
 	freezeAfter          int // bytes after which the carrier stalls for freezeFor
 	freezeFor            time.Duration
 	dialDelay            time.Duration // "no proxy available" for this long before the carrier exists
+	dnFreezeAfter        int           // downstream bytes after which the client stops reading this carrier for dnFreezeFor
+	dnFreezeFor          time.Duration // (the carrier still delivers upstream: a slow / stalled consumer)
 }
 
 // faultConn wraps one carrier.
@@ -102,6 +104,11 @@ func (c *faultConn) Write(b []byte) (int, error) {
 func (c *faultConn) Read(b []byte) (int, error) {
 	n, err := c.inner.Read(b)
 	c.mu.Lock()
+	if c.f.dnFreezeAfter > 0 && c.dn < c.f.dnFreezeAfter && c.dn+n >= c.f.dnFreezeAfter {
+		c.mu.Unlock()
+		time.Sleep(c.f.dnFreezeFor)
+		c.mu.Lock()
+	}
 	defer c.mu.Unlock()
 	if c.cut {
 		return 0, io.ErrClosedPipe
@@ -133,19 +140,20 @@ func (c *faultConn) Close() error {
 }
 
 type c01Result struct {
-	outage     bool   // the bulk-upload-with-outage scenario
-	idGroup    []byte // non-nil: base of a group of nearly identical ClientIDs
-	session    uint32
-	upLen      int
-	downLen    int
-	carriers   int32
-	clientErr  string // first problem seen at the client end
-	serverErr  string
-	serverDone bool
-	accepted   int32
-	remoteAddr string
-	faults     []string
-	elapsed    time.Duration
+	outage       bool   // the bulk-upload-with-outage scenario
+	slowConsumer bool   // bulk download to a client that stops reading for a while; the other sessions must not notice
+	idGroup      []byte // non-nil: base of a group of nearly identical ClientIDs
+	session      uint32
+	upLen        int
+	downLen      int
+	carriers     int32
+	clientErr    string // first problem seen at the client end
+	serverErr    string
+	serverDone   bool
+	accepted     int32
+	remoteAddr   string
+	faults       []string
+	elapsed      time.Duration
 }
 
 func c01GenFault(rng *rand.Rand, first bool) c01Fault {
@@ -216,6 +224,13 @@ func c01Client(serverAddr string, res *c01Result, seed int64, maxFaults int, dea
 		}
 		if res.outage {
 			f = c01OutageFault(k, res.downLen > res.upLen)
+		}
+		if res.slowConsumer {
+			// a bulk download whose client stops reading its (otherwise healthy) carrier for 6 s after 128 KiB
+			f = c01Fault{upBudget: -1, downBudget: -1}
+			if k == 1 {
+				f.dnFreezeAfter, f.dnFreezeFor = 128<<10, 6*time.Second
+			}
 		}
 		res.faults = append(res.faults, f.String())
 		rngMu.Unlock()
@@ -512,6 +527,10 @@ func c01Stack(t *testing.T, prop string) {
 			if s%2 == 1 {
 				res.upLen, res.downLen = 1000, 4<<20 // outage during a bulk download
 			}
+		}
+		if s == r.N(2, 6) && prop == "C01" {
+			res.slowConsumer = true
+			res.upLen, res.downLen = 1000, 6<<20
 		}
 		if s%2 == 0 {
 			res.idGroup = idBase
